@@ -54,6 +54,7 @@ func equal(a, b LockSet) bool {
 
 type lockState struct {
 	held     LockSet
+	may      LockSet // classes held on some path (may-analysis, union at joins)
 	deferred LockSet // classes released by registered defers
 	top      bool    // unreachable so far
 }
@@ -63,6 +64,7 @@ type Locks struct {
 	P       *ir.Prog
 	Entry   map[*ssa.Function]LockSet
 	before  map[ssa.Instruction]LockSet
+	mayBef  map[ssa.Instruction]LockSet
 	summary map[*ssa.Function]lockSummary
 	// entryFree marks functions whose entry lockset is forced empty and why.
 	EntryWhy map[*ssa.Function]string
@@ -102,7 +104,7 @@ func (l *Locks) lockOp(c *ssa.CallCommon) (class string, acquire bool, ok bool) 
 // AnalyzeLocks runs the interprocedural must-hold analysis over all module
 // functions.
 func AnalyzeLocks(p *ir.Prog) *Locks {
-	l := &Locks{P: p, Entry: map[*ssa.Function]LockSet{}, before: map[ssa.Instruction]LockSet{},
+	l := &Locks{P: p, Entry: map[*ssa.Function]LockSet{}, before: map[ssa.Instruction]LockSet{}, mayBef: map[ssa.Instruction]LockSet{},
 		summary: map[*ssa.Function]lockSummary{}, EntryWhy: map[*ssa.Function]string{}, universe: LockSet{}}
 	// universe of classes
 	for _, f := range p.Funcs {
@@ -317,7 +319,7 @@ func (l *Locks) flow(f *ssa.Function) lockSummary {
 	}
 	in := make([]*lockState, len(f.Blocks))
 	entry := l.Entry[f]
-	in[0] = &lockState{held: entry.clone(), deferred: LockSet{}}
+	in[0] = &lockState{held: entry.clone(), may: entry.clone(), deferred: LockSet{}}
 	released := LockSet{} // classes unlocked while not held (function releases the caller's lock)
 	work := []int{0}
 	inWork := map[int]bool{0: true}
@@ -327,9 +329,10 @@ func (l *Locks) flow(f *ssa.Function) lockSummary {
 		work = work[1:]
 		inWork[bi] = false
 		b := f.Blocks[bi]
-		st := &lockState{held: in[bi].held.clone(), deferred: in[bi].deferred.clone()}
+		st := &lockState{held: in[bi].held.clone(), may: in[bi].may.clone(), deferred: in[bi].deferred.clone()}
 		for _, ins := range b.Instrs {
 			l.before[ins] = st.held.clone()
+			l.mayBef[ins] = st.may.clone()
 			switch x := ins.(type) {
 			case *ssa.Call:
 				l.applyCall(&x.Call, st, released)
@@ -352,13 +355,20 @@ func (l *Locks) flow(f *ssa.Function) lockSummary {
 						released[k] = true
 					}
 					delete(st.held, k)
+					delete(st.may, k)
 				}
 			}
 		}
 		for _, s := range b.Succs {
 			if in[s.Index] == nil {
-				in[s.Index] = &lockState{held: st.held.clone(), deferred: st.deferred.clone()}
+				in[s.Index] = &lockState{held: st.held.clone(), may: st.may.clone(), deferred: st.deferred.clone()}
 			} else {
+				nm := in[s.Index].may.clone()
+				for k := range st.may {
+					nm[k] = true
+				}
+				mayChanged := !equal(nm, in[s.Index].may)
+				in[s.Index].may = nm
 				nh := meet(in[s.Index].held, st.held)
 				nd := LockSet{}
 				for k := range in[s.Index].deferred {
@@ -367,7 +377,7 @@ func (l *Locks) flow(f *ssa.Function) lockSummary {
 				for k := range st.deferred {
 					nd[k] = true
 				}
-				if equal(nh, in[s.Index].held) && equal(nd, in[s.Index].deferred) {
+				if equal(nh, in[s.Index].held) && equal(nd, in[s.Index].deferred) && !mayChanged {
 					continue
 				}
 				in[s.Index].held = nh
@@ -412,11 +422,13 @@ func (l *Locks) applyCall(c *ssa.CallCommon, st *lockState, released LockSet) {
 	if cl, acq, ok := l.lockOp(c); ok {
 		if acq {
 			st.held[cl] = true
+			st.may[cl] = true
 		} else {
 			if !st.held[cl] {
 				released[cl] = true
 			}
 			delete(st.held, cl)
+			delete(st.may, cl)
 		}
 		return
 	}
@@ -427,9 +439,11 @@ func (l *Locks) applyCall(c *ssa.CallCommon, st *lockState, released LockSet) {
 					released[k] = true
 				}
 				delete(st.held, k)
+				delete(st.may, k)
 			}
 			for k := range s.acquires {
 				st.held[k] = true
+				st.may[k] = true
 			}
 		}
 	}
@@ -442,6 +456,12 @@ func (l *Locks) Held(in ssa.Instruction) LockSet { return l.before[in] }
 // HeldClass reports whether class is held before in.
 func (l *Locks) HeldClass(in ssa.Instruction, class string) bool {
 	h := l.before[in]
+	return h != nil && h[class]
+}
+
+// MayHold reports whether class may be held (on some path) before in.
+func (l *Locks) MayHold(in ssa.Instruction, class string) bool {
+	h := l.mayBef[in]
 	return h != nil && h[class]
 }
 
